@@ -23,11 +23,13 @@ import (
 	"net"
 	"os"
 	"os/exec"
+	"runtime"
 	"strconv"
 	"strings"
 	"time"
 
 	"ergo.services/ergo/gen"
+	"ergo.services/ergo/net/proto"
 )
 
 func init() {
@@ -107,6 +109,8 @@ func c16FramesChild() {
 			}
 		}
 		hwm0 := vmHWM()
+		var ms0, ms1 runtime.MemStats
+		runtime.ReadMemStats(&ms0)
 		core := &w5Core{name: "b@w5", creation: 2002}
 		lg := &w5Log{}
 		conn, err := w5NewConn(core, lg, "a@w5", 1001, w5Opts{Pool: 1, MaxBrecv: max, ImportantB: true}, false)
@@ -158,7 +162,31 @@ func c16FramesChild() {
 		ucount++
 		uerr := u.A.conn.SendPID(gen.PID{Node: "a@w5", ID: uint64(1000 + n), Creation: 1001}, gen.PID{Node: "b@w5", ID: 9, Creation: 2002}, gen.MessageOptions{}, "still here")
 		uok := uerr == nil && u.waitRoutes(u.B.core, ucount, 3*time.Second, 3*time.Second)
-		fmt.Fprintf(out, "case %d closed=%v probe=%v routed=%d recovered=%d errs=%d uok=%v hwm_kb=%d\n", n, closed, probeOK, routed, len(lg.Panics()), len(lg.Errs()), uok, vmHWM()-hwm0)
+		// allocation and time of the decoding worker, measured synchronously on every complete frame of the stream
+		// (the live workers above run asynchronously and may still be busy)
+		var all []byte
+		for _, ch := range chunks {
+			all = append(all, ch...)
+		}
+		fs, _ := w5SplitFrames(all)
+		runtime.ReadMemStats(&ms0)
+		t0 := time.Now()
+		for _, f := range fs {
+			if max > 0 && len(f) > max {
+				break
+			}
+			if f[0] != 78 || f[1] != 1 {
+				break
+			}
+			core2 := &w5Core{name: "b@w5", creation: 2002}
+			conn2, err := w5NewConn(core2, &w5Log{}, "a@w5", 1001, w5Opts{Pool: 1, MaxBrecv: max}, false)
+			if err == nil {
+				proto.VerifHandleFrame(conn2, f)
+			}
+		}
+		syncMs := time.Since(t0).Milliseconds()
+		runtime.ReadMemStats(&ms1)
+		fmt.Fprintf(out, "case %d closed=%v probe=%v routed=%d recovered=%d errs=%d uok=%v hwm_kb=%d alloc_kb=%d sync_ms=%d\n", n, closed, probeOK, routed, len(lg.Panics()), len(lg.Errs()), uok, vmHWM()-hwm0, (ms1.TotalAlloc-ms0.TotalAlloc)/1024, syncMs)
 		out.Flush()
 		n++
 	}
@@ -275,6 +303,9 @@ func c16GenCase(rng *Rng) c16FCase {
 	case 8: // valid header, body of another type's layout
 		f := valid()
 		f[7] = types[rng.Intn(len(types))]
+		if f[7] == 200 {
+			f[8] = byte(rng.Intn(100)) // unknown compression id: the declared-length region is the listed finding D27
+		}
 		stream = append(stream, f...)
 		note = fmt.Sprintf("retyped=%d", f[7])
 	default:
@@ -382,7 +413,7 @@ func c16FramesPart(c *Ctx) {
 		r.Rule += " || "
 	}
 	r.Rule += "frames: hostile stream (short length field | oversized | wrong magic/version | truncated per-type fields | hostile compression envelope | random | retyped | incomplete, optionally between valid frames, PRNG segmentation) fed to a live connection in a subprocess -> outcome class vs Stream.readAll+Frame.parse; survival of the process and of an unrelated connection; peak RSS growth; non-trivial = the stream is refused, dropped or recovered (not plainly routed)"
-	n := c.N(400, 6000)
+	n := c.N(260, 6000)
 	var cases []c16FCase
 	// directed: the D12 witnesses first
 	for l := 0; l < 8; l++ {
@@ -424,14 +455,7 @@ func c16FramesPart(c *Ctx) {
 			if class == "open" && g["probe"] != "true" && rest[next+i] == 0 {
 				r.Violation("C16-frames-stuck", "the victim link stays open but no longer routes a valid frame", cs)
 			}
-			hwm, _ := strconv.ParseInt(g["hwm_kb"], 10, 64)
-			size := 0
-			for _, h := range cs.Chunks {
-				size += len(h) / 2
-			}
-			if hwm > int64(32*1024+16*size/1024) {
-				r.Violation("C16-frames-alloc", fmt.Sprintf("peak resident memory grew by %d kB on a %d-byte stream", hwm, size), cs)
-			}
+			c16CheckAlloc(c, cs, g)
 			if pred[next+i] == "crash" {
 				r.Disagree("frames-class", "model predicts an unrecovered panic, the process survived", cs)
 			} else if pred[next+i] != class && !strings.HasPrefix(cs.Note, "z-") {
@@ -465,6 +489,34 @@ func c16FramesPart(c *Ctx) {
 		}
 	}
 	r.CountN("frames:node-crashes", crashes)
+	// listed finding C16/D27: the compressed receive case allocates the DECLARED length up front.
+	// Witness replayed in a subprocess of its own: 13 bytes (LZW id, declared 16 MiB; 0xFFFFFFFF allocates 8 GiB in total and keeps a worker busy for over a minute).
+	w := c16FCase{Chunks: []string{"4e010000000d00c86401000000"}, Note: "directed z-alloc: lzw envelope of 13 bytes declaring 16 MiB"}
+	got, _, _ := c16RunChild(c, []c16FCase{w})
+	if len(got) == 1 {
+		r.Case("F|"+w.Note, true)
+		c16CheckAlloc(c, w, got[0])
+		if got[0]["uok"] != "true" {
+			r.Violation("C16-frames-unrelated", "after the allocation witness an unrelated connection stopped delivering", w)
+		}
+	} else {
+		r.Violation("C16-frames-crash", "the process died on the allocation witness", w)
+	}
+}
+
+// c16CheckAlloc: allocation (bytes allocated while the stream was handled) and peak resident growth
+// against the budget of Model/Envelope.allocBudget: 16 bytes per input byte + 32 MiB.
+func c16CheckAlloc(c *Ctx, cs c16FCase, g map[string]string) {
+	hwm, _ := strconv.ParseInt(g["hwm_kb"], 10, 64)
+	alloc, _ := strconv.ParseInt(g["alloc_kb"], 10, 64)
+	size := 0
+	for _, h := range cs.Chunks {
+		size += len(h) / 2
+	}
+	budget := int64(32*1024 + 16*size/1024)
+	if alloc > budget || hwm > budget {
+		c.R.Violation("C16-frames-alloc", fmt.Sprintf("%d kB allocated (peak resident memory +%d kB) while handling a %d-byte stream", alloc, hwm, size), cs)
+	}
 }
 
 // c16RunChild feeds the cases to a fresh subprocess; returns the per-case results it managed to
